@@ -43,7 +43,7 @@ Logged ==
    /\ Len(St.gets) = Len(NameTab)
    /\ \A n \in 1..Len(NameTab) : St.gets[n] = (IF n \in Names THEN <<attrs'[n].vlen, attrs'[n].tag>> ELSE <<-1, 0>>)
    /\ (St.pgets = <<>> \/ St.pgets = St.gets)
-   /\ (St.peer # <<>> => \A n \in 1..Len(NameTab) : St.peer[n] = GetOf(PeerEntries, n))
+   /\ (St.peer # <<>> => \A n \in 1..Len(NameTab) : St.peer[n] = (IF INLINE /\ n = DATA THEN <<0, 0>> ELSE GetOf(PeerEntries, n)))   \* the peer's own body holds its system.data
 Keep == UNCHANGED <<fb0, fi0, ib0>>
 
 TReset == /\ IsEvent("reset")
